@@ -151,3 +151,19 @@ func H_C07_p0() {
 	ref64 := BooleanOpPaths64(Intersection, ScalePathsDToPaths64(subj, 1), ScalePathsDToPaths64(clip, 1), NonZero)
 	vSamePathsD("C07.p0", got, ScalePaths64ToPathsD(ref64, 1))
 }
+
+// H_C07_inflate: InflatePathsD versus InflatePaths64 on the quantised input
+// with delta and arc tolerance multiplied by 10^p. The offset code takes sqrt
+// and trigonometric functions of its input, which the solver cannot treat
+// symbolically, so this job runs on CONCRETE input: the executor acts as a
+// plain interpreter of the real code (a differential test through the same
+// machinery, not a for-all claim).
+func H_C07_inflate(join, p int64) {
+	scale := vScale(p)
+	sq := PathsD{{{0, 0}, {10, 0}, {10, 10}, {0, 10}}}
+	delta, arcTol := 5.0, 0.5
+	got := InflatePathsD(sq, delta, JoinType(join), Polygon, WithPrecision(int(p)), WithArcTolerance(arcTol))
+	ref := InflatePaths64(ScalePathsDToPaths64(sq, scale), delta*scale, JoinType(join), Polygon, WithArcTolerance(arcTol*scale))
+	vCover("C07.inflate.done")
+	vSamePathsD("C07.inflate", got, ScalePaths64ToPathsD(ref, 1/scale))
+}
